@@ -34,7 +34,12 @@ def tweak(world, rng):
 CFG = {"cmds": ["empty"], "oracles": ("effects",), "violations": ("effects",), "profile": "mixed", "states": False, "tweak": tweak}
 LEVEL_NOTE = ("theorems: with --dry-run, and in interactive mode with a reply not beginning with y/Y (or end of input), "
               "trash-empty issues no file-system call, for every world, DAYS and oracle; the reply test is 'first character "
-              "y or Y'. 'dry-run prints exactly what the real run removes' is checked differentially on copies of each world")
+              "y or Y'. C14Loop: dry_run_loop_prints_selected (every oracle: no call, unchanged, the lines are payload and info path of "
+              "each selected name in order), real_loop_removes_selected, dry_run_prints_exactly_what_real_removes(_partial), "
+              "dry_run_command_prints_announced and dry_run_command_partial (whole runEmpty over several directories incl. the "
+              "orphan pass), guard_refuses_completely, reply_first_byte_decides; counterexamples (real behaviour): "
+              "symlinked_info_breaks_dry_run (the recorded finding), payloadless_entry_is_announced. 'dry-run prints exactly what "
+              "the real run removes' is also checked differentially on copies of each world")
 RULE = ("seeded trash worlds (a quarter with a stale directorysizes cache in the trash directories) x {--dry-run, -i with 21 replies incl. EOF and look-alikes of y} x DAYS x --trash-dir x -v; oracle: every slot kept "
         "and everything outside unchanged; exhaustive function-level check of parse_reply over all strings of length <= 2 "
         "of printable ASCII; differential: printed paths of a dry run vs paths removed by the real run on a copy")
